@@ -88,10 +88,11 @@ type poolSeq struct {
 	confirmed []*nom.AccountBlock // the confirmed chain of the address
 	history   []db.DB             // stable database after each confirmed block (history[i] holds confirmed[:i])
 	lock      sync.Mutex
+	seen      map[types.HashHeight]bool // every block identifier the sequence ever offered to the pool or confirmed
 }
 
 func newPoolSeq(c *Ctx) *poolSeq {
-	s := &poolSeq{c: c, stable: &poolStable{dbs: map[types.Address]db.DB{}}}
+	s := &poolSeq{c: c, stable: &poolStable{dbs: map[types.Address]db.DB{}}, seen: map[types.HashHeight]bool{}}
 	s.addr = idxAddress(7, 1)
 	s.pool = chain.NewAccountPool(s.stable)
 	s.history = []db.DB{db.NewMemDB()}
@@ -149,6 +150,27 @@ func (s *poolSeq) observe(op string) (string, []*nom.AccountBlock) {
 		}
 		prev = b.Identifier()
 	}
+	// monitor: the pool holds (answers GetPatch for) exactly the blocks of its uncommitted chain - a block that lost its
+	// place to a competitor, was rolled back, is confirmed, or was refused is not "in the pool" (sync and gossip skip a
+	// delivered block for which GetPatch answers)
+	pooled := map[types.HashHeight]bool{}
+	for _, b := range unc {
+		if b != nil {
+			pooled[b.Identifier()] = true
+		}
+	}
+	for id := range s.seen {
+		var p db.Patch
+		if pn := safely(func() { p = s.pool.GetPatch(s.addr, id) }); pn != "" {
+			s.c.Fail("pool after %s: GetPatch(%d:%s) panics", op, id.Height, s8(id.Hash))
+			break
+		}
+		if (p != nil) != pooled[id] {
+			s.c.Fail("pool after %s: GetPatch(%d:%s) answers %v but the block is %s the account's uncommitted chain [%s] (confirmed height %d)", op, id.Height, s8(id.Hash),
+				map[bool]string{true: "a patch", false: "nil"}[p != nil], map[bool]string{true: "on", false: "not on"}[pooled[id]], strings.TrimSpace(out), len(s.confirmed))
+			break
+		}
+	}
 	return out, unc
 }
 
@@ -162,6 +184,7 @@ func (s *poolSeq) add(b *nom.AccountBlock, force bool) {
 		}
 	}
 	tx := &nom.AccountBlockTransaction{Block: b, Changes: db.NewPatch()}
+	s.seen[b.Identifier()] = true
 	res := guard(func() string {
 		if force {
 			return poolErr(s.pool.ForceAddAccountBlockTransaction(&s.lock, tx))
@@ -205,6 +228,7 @@ func (s *poolSeq) insert(nb []*nom.AccountBlock) {
 		common.DealWithErr(err)
 		common.DealWithErr(db.SetFrontier(next, b.Identifier(), data))
 		s.confirmed = append(s.confirmed, b)
+		s.seen[b.Identifier()] = true
 		s.history = append(s.history, next)
 		cur = next
 		args = append(args, fmt.Sprint(b.Height), s8(b.Hash), s8(b.PreviousHash))
